@@ -1,0 +1,44 @@
+//go:build verif
+
+// Contracts for package evaluator, read by /verif/bin/govc (comment-only file).
+// Syntax: DESIGN.md section 2.2.  Nothing in this file is compiled into the package.
+
+package evaluator
+
+// ---------------------------------------------------------------------------
+// slicing (C12, C11, C03, C09): Python's slice.indices, with the parser's
+// MaxInt / MinInt sentinels for absent parts (they are semantically transparent)
+
+//@ ghost pyStart(n Int, start Int, step Int) Int = ite(step > 0, ite(start < 0, max(start + n, 0), min(start, n)), ite(start < 0, max(start + n, -1), min(start, n - 1)))
+//@ ghost pyStop(n Int, stop Int, step Int) Int = ite(step > 0, ite(stop < 0, max(stop + n, 0), min(stop, n)), ite(stop < 0, max(stop + n, -1), min(stop, n - 1)))
+//@ ghost pyLen(lo Int, hi Int, step Int) Int = ite(step > 0, ite(lo < hi, (hi - lo - 1) / step + 1, 0), ite(hi < lo, (lo - hi - 1) / (0 - step) + 1, 0))
+
+//@ func index
+//@   tags C01 C03 C06
+//@   ensures nonarray: !isArr(v) ==> result == nil
+//@   ensures inrange: isArr(v) && 0 <= i && i < len(arr(v)) ==> result == arr(v)[i]
+//@   ensures negative: isArr(v) && 0 - len(arr(v)) <= i && i < 0 ==> result == arr(v)[i + len(arr(v))]
+//@   ensures outside: isArr(v) && (i >= len(arr(v)) || i < 0 - len(arr(v))) ==> result == nil
+
+//@ func slice
+//@   tags C12 C01 C03 C06
+//@   ensures[C12 C01] other: !isArr(v) && !isStr(v) ==> result == nil
+//@   ensures[C12] arr.kind: isArr(v) ==> isArr(result)
+//@   ensures[C12] arr.len: isArr(v) ==> len(arr(result)) == pyLen(pyStart(len(arr(v)), start, 1), pyStop(len(arr(v)), stop, 1), 1)
+//@   ensures[C12] arr.elems: isArr(v) ==> (forall k Int :: 0 <= k && k < len(arr(result)) ==> arr(result)[k] == arr(v)[pyStart(len(arr(v)), start, 1) + k])
+//@   ensures[C12 C11] str.kind: isStr(v) ==> isStr(result)
+//@   ensures[C12 C11] str.window: isStr(v) && pyStart(runes(str(v)), start, 1) < pyStop(runes(str(v)), stop, 1) ==> same(str(result), unitWindow(str(v), pyStart(runes(str(v)), start, 1), pyStop(runes(str(v)), stop, 1)))
+//@   ensures[C12 C11] str.empty: isStr(v) && pyStart(runes(str(v)), start, 1) >= pyStop(runes(str(v)), stop, 1) ==> len(str(result)) == 0
+//@   loop 1
+//@     invariant 0 <= i && i <= start && start <= runes(str(v0)) && 0 <= stop && stop <= runes(str(v0))
+//@     invariant sameBase(s, str(v0)) && hi(s) == hi(str(v0)) && lo(s) == roff(s, ridx(s, lo(str(v0))) + i)
+//@     decreases start - i
+//@     bound runes(str(v0))
+//@   loop 2
+//@     invariant start <= i && (i <= stop || i == start) && 0 <= start && start <= runes(str(v0)) && stop <= runes(str(v0))
+//@     invariant sameBase(s, str(v0)) && hi(s) == hi(str(v0)) && lo(s) == roff(s, ridx(s, lo(str(v0))) + start)
+//@     invariant 0 <= idx && lo(s) + idx == roff(s, ridx(s, lo(str(v0))) + i)
+//@     decreases stop - i
+//@     bound runes(str(v0))
+
+//@ ghost unitWindow(s Str, a Int, b Int) Str = mkstr(base(s), roff(s, ridx(s, lo(s)) + a), roff(s, ridx(s, lo(s)) + b))
